@@ -33,4 +33,14 @@ SPECS = [
     dict(name="td3_target_frag", file="stable_baselines3/td3/td3.py", qual="TD3.train", **_TARGET),
     dict(name="td3_delay_guard", file="stable_baselines3/td3/td3.py", qual="TD3.train", start=r"^if self\._n_updates % ", end=None, kind="test",
          inputs=[("n_updates", "Z"), ("policy_delay", "Z")], subst={"self._n_updates": "n_updates", "self.policy_delay": "policy_delay"}),
+    # ---- optimizer-facing logic
+    dict(name="lr_assigned", file="stable_baselines3/common/utils.py", qual="update_learning_rate", start=r"^param_group\['lr'\] = ", end=None, kind="expr", ret="Q",
+         inputs=[("learning_rate", "Q")]),
+    dict(name="lr_progress_arg", file="stable_baselines3/common/base_class.py", qual="BaseAlgorithm._update_learning_rate", start=r"^update_learning_rate\(", end=None,
+         kind="subexpr", pick=r"self\._current_progress_remaining|\d+(\.\d+)?", ret="Q", inputs=[("progress", "Q")], subst={"self._current_progress_remaining": "progress"}),
+    dict(name="sac_auto_target_entropy", file="stable_baselines3/sac/sac.py", qual="SAC._setup_model", start=r"^self\.target_entropy = float\(-", end=None, kind="expr", ret="Q",
+         inputs=[("prod", "Q")], subst={"np.prod(self.env.action_space.shape).astype(np.float32)": "prod"}),
+    dict(name="sac_default_init", file="stable_baselines3/sac/sac.py", qual="SAC._setup_model", start=r"^init_value = \d", end=None, kind="expr", ret="Q", inputs=[]),
+    dict(name="sac_log_arg", file="stable_baselines3/sac/sac.py", qual="SAC._setup_model", start=r"^self\.log_ent_coef = ", end=None, kind="subexpr",
+         pick=r"th\.ones\(1, device=self\.device\) \* init_value", ret="Q", inputs=[("one", "Q"), ("init_value", "Q")], subst={"th.ones(1, device=self.device)": "one"}),
 ]
